@@ -39,6 +39,8 @@ def validate(v, trace, name):
                 sig = {"kind": rej[1], "entry": e["entry"], "rule": e["rule"], "value": e["value"]}
             else:
                 sig = {"kind": rej[1], "text": e.get("text", "")[:80]}
+            if e.get("ev") == "Unset":
+                sig = {"kind": rej[1], "entry": e["entry"]}
             v.failure(sig, {"event": e})
     for f, d in common.LAST_DRIFTS[:10]:
         e = common.read_ndjson(f)[d[0] - 1]
